@@ -1896,6 +1896,11 @@ def sequence_to_pianoroll(
     else:
       raise ValueError('Unknown onset mode: {}'.format(onset_mode))
 
+    # A negative onset delay can move the onset before the first frame; negative
+    # frame indices would wrap around when used as slice bounds below.
+    onset_start_frame = max(0, onset_start_frame)
+    onset_end_frame = max(0, onset_end_frame)
+
     # label offset events.
     offset_start_time = min(note.end_time,
                             sequence.total_time - offset_length_ms / 1000.)
